@@ -6,6 +6,7 @@ CONSTANTS
   Dbs = {"d1"}
   Tbls = {"t1"}
   Privs = {"SELECT", "INSERT", "GRANT OPTION"}
+  DynPrivs = {}
   MaxSet = 1
   WithAll = FALSE
   MaxStep = 100
